@@ -298,12 +298,10 @@ func (s *Sim) checkPreControl(v *recView) {
 				continue
 			}
 			ref := controllerOf(p)
-			parent, _, _ := podOrdinal(p.Name)
-			m := podNameRe.FindStringSubmatch(p.Name)
-			if m != nil {
-				parent = m[1]
-			}
-			match := selErr == nil && sel.Matches(labels.Set(p.Labels)) && parent == cs.Name
+			// "its name is S-<ordinal>": the digits must be an ordinal (an int32, as
+			// replicas and slots are)
+			parent, _, isOrd := podOrdinal(p.Name)
+			match := selErr == nil && sel.Matches(labels.Set(p.Labels)) && isOrd && parent == cs.Name
 			if deletingNow {
 				// how the reconcile knew: from its cached set, or only from an uncached read
 				how := "-after-fresh-read"
@@ -404,8 +402,8 @@ func (s *Sim) checkClaimSet(v *recView) {
 	}
 	want := map[string]bool{}
 	for _, p := range rec.CachePods {
-		m := podNameRe.FindStringSubmatch(p.Name)
-		member := m != nil && m[1] == cs.Name
+		parent, _, isOrd := podOrdinal(p.Name)
+		member := isOrd && parent == cs.Name
 		match := sel.Matches(labels.Set(p.Labels)) && member
 		ref := controllerOf(p)
 		switch {
@@ -929,6 +927,26 @@ func (s *Sim) checkStatusWrites(v *recView) {
 		}
 		if st.Replicas < 0 {
 			s.violate("C12", "C12.bounds", "replicas-negative", fmt.Sprintf("status write for %s: replicas=%d", set.Name, st.Replicas))
+		}
+		// "never counted": the pods a status counts are pods this reconcile claimed
+		// or created itself (an upper bound; deletions only lower the count)
+		created := 0
+		for _, pc := range rec.Calls[rec.CtlCallIdx:] {
+			if pc.Seq < c.Seq && pc.Kind == KPod && pc.Verb == "create" && pc.Err == nil {
+				created++
+			}
+		}
+		ready := 0
+		for _, p := range rec.Claimed {
+			if podRunningReady(p) {
+				ready++
+			}
+		}
+		if int(st.Replicas) > len(rec.Claimed)+created {
+			s.violate("C10", "C10.foreign-counted", "replicas", fmt.Sprintf("status write for %s counts replicas=%d but the reconcile claimed %d pods and created %d", set.Name, st.Replicas, len(rec.Claimed), created))
+		}
+		if int(st.ReadyReplicas) > ready {
+			s.violate("C10", "C10.foreign-counted", "readyReplicas", fmt.Sprintf("status write for %s counts readyReplicas=%d but only %d of the claimed pods are Running and Ready", set.Name, st.ReadyReplicas, ready))
 		}
 		if st.ObservedGeneration != set.Generation {
 			s.violate("C12", "C12.generation", "not-reconciled-generation", fmt.Sprintf("status write for %s: observedGeneration=%d but the reconciled object has generation %d", set.Name, st.ObservedGeneration, set.Generation))
